@@ -17,10 +17,13 @@ func init() {
 		{Name: "IPv6 frame range off by one", File: "internal/3rdparty/slip/slipmux.go", Old: "return frame >= FRAME_IPV6_START && frame <= FRAME_IPV6_END", New: "return frame > FRAME_IPV6_START && frame <= FRAME_IPV6_END", Expect: "mux-ip-frame-range :: IsIpv6Frame"},
 		{Name: "ESC constant wrong", File: f, Old: "ESC     = 0333", New: "ESC     = 0334", Expect: "rfc1055-constants"},
 		{Name: "writer escapes END as ESC ESC_ESC", File: f, Old: "\t\t\tif err := buf.WriteByte(ESC_END); err != nil {", New: "\t\t\tif err := buf.WriteByte(ESC_ESC); err != nil {", Expect: "escape-tables-inverse"},
-		{Name: "reader maps ESC_ESC to END", File: f, Old: "\t\t\tcase ESC_ESC:\n\t\t\t\treadBuf[0] = ESC", New: "\t\t\tcase ESC_ESC:\n\t\t\t\treadBuf[0] = END", Expect: "escape-tables-inverse"},
+		{Name: "reader maps ESC_ESC to END", File: f, Old: "\t\t\tcase ESC_ESC:\n\t\t\t\tc = ESC", New: "\t\t\tcase ESC_ESC:\n\t\t\t\tc = END", Expect: "slip-reader-semantics"},
 		{Name: "writer omits the trailing END", File: f, Old: "\tif err := buf.WriteByte(END); err != nil {\n\t\treturn err\n\t}\n\n\t_, err := s.w.Write(buf.Bytes())", New: "\t_, err := s.w.Write(buf.Bytes())", Expect: "packet-delimiters"},
 		{Name: "reader reads two bytes at a time", File: f, Old: "readBuf := make([]byte, 1)", New: "readBuf := make([]byte, 2)", Expect: "one-byte-reads"},
-		{Name: "second read result not tested", File: f, Old: "\t\t\tn, err = s.r.Read(readBuf)\n\n\t\t\tif n == 0 || err != nil {\n\t\t\t\tisPrefix = true\n\t\t\t\tp = buf.Bytes()\n\t\t\t\treturn\n\t\t\t}\n", New: "\t\t\tn, err = s.r.Read(readBuf)\n", Expect: "read-result-tested"},
+		{Name: "reader drops a byte delivered together with an error", File: f, Old: "\t\tif n == 0 {\n", New: "\t\tif n == 0 || err != nil {\n", Expect: "slip-reader-semantics"},
+		{Name: "reader forgets that a prefix of the packet was handed out", File: f, Old: "\t\t\tif len(p) > 0 {\n\t\t\t\ts.inPacket = true\n\t\t\t}\n", New: "", Expect: "slip-reader-semantics"},
+		{Name: "reader keeps the pending ESC in a local", File: f, Old: "\tn := 0\n\tempty := 0\n", New: "\tn := 0\n\tempty := 0\n\ts.esc = false\n", Expect: "slip-reader-semantics"},
+		{Name: "reader stores the byte after ESC without decoding it", File: f, Old: "\t\t\tswitch c {\n\t\t\tcase ESC_END:\n\t\t\t\tc = END\n\t\t\tcase ESC_ESC:\n\t\t\t\tc = ESC\n\t\t\t}\n", New: "", Expect: "slip-reader-semantics"},
 		{Name: "mux reader strips the frame byte of IP frames", File: "internal/3rdparty/slip/slipmux.go", Old: "\tif !IsIpFrame(frameType) {\n\t\tres = res[1:]", New: "\tif IsIpFrame(frameType) {\n\t\tres = res[1:]", Expect: "mux-frame-symmetry"},
 		{Name: "mux writer appends FCS to diagnostic frames instead of CoAP", File: "internal/3rdparty/slip/slipmux.go", Old: "\tif frame == FRAME_COAP {", New: "\tif frame == FRAME_DIAGNOSTIC {", Expect: "mux-frame-symmetry"},
 	}})
@@ -113,7 +116,7 @@ func runC25(c *Ctx) {
 	c.Explain = "Decides structural clauses of SLIP framing: (1) END/ESC/ESC_END/ESC_ESC have the RFC 1055 values; (2) the writer's escape table {END -> ESC ESC_END, ESC -> ESC ESC_ESC, other -> itself} and the reader's table under ESC {ESC_END -> END, ESC_ESC -> ESC} compose to the identity on every byte class, and each packet is delimited by END before and after; " +
 		"(3) chunk independence by construction: the reader reads the transport one byte at a time into a 1-byte buffer and tests n and err of every Read before using the byte; " +
 		"(4) SLIPMUX: the frame-type byte is prepended by the writer exactly when the reader strips it (same predicate, not an IP frame), and the FCS is appended exactly for the frame type for which the reader checks and removes it. " +
-		"NOT decided: the (n == 1, err == io.EOF) corner of io.Reader, FCS arithmetic, behaviour on protocol violations."
+		"(5) Reader.ReadPacket is interpreted over scripted transports (a byte, a byte with io.EOF, an empty read, a temporary error at every position) for payloads that contain END and ESC bytes: the packets a caller assembles are the payloads sent. NOT decided: FCS arithmetic, behaviour on protocol violations, the SLIPMUX reader on interrupted transports."
 	c.Trusted = []string{"go/packages, go/types (x/tools v0.29.0)", "RFC 1055 constants"}
 	c.Exhaust = true
 	p := c.Load(LoadOpt{Light: true}, "./internal/3rdparty/slip")
@@ -254,7 +257,9 @@ func runC25(c *Ctx) {
 			c.Check(wrote, rD, "WritePacket: buffer written to the transport", p.Pos(fd.Pos()), "w.Write(buf.Bytes())", "the stuffed buffer is not written to the transport in one Write")
 		}
 	}
-	// reader
+	// reader: interpreted (c25_sem.go); when the interpretation decides it, the shape rules on the reader's decode
+	// switch and on the test after each Read are not applied — they are proxies an equivalent decoder would trip
+	readerSem := c25ReaderSemantics(c, p, pk)
 	rmap := map[string]string{} // escaped code -> restored byte
 	storesRaw := false
 	if fd := p.MustFunc(rT, pk, "Reader.ReadPacket"); fd != nil {
@@ -319,7 +324,9 @@ func runC25(c *Ctx) {
 			}
 		}
 		_, _ = nReads, nTested // superseded by the semantic form of the rule (c25_reads.go)
-		c25ReadsChecked(c, p, pk, fd, bufVar)
+		if !readerSem {
+			c25ReadsChecked(c, p, pk, fd, bufVar)
+		}
 		// decode tables: a switch on the byte, or the same as an if / else-if chain
 		record := func(code string, body []ast.Stmt) {
 			for _, s := range body {
@@ -449,11 +456,11 @@ func runC25(c *Ctx) {
 	// composition
 	for _, special := range []string{"END", "ESC"} {
 		seq := wmap[special]
-		good := len(seq) == 2 && seq[0] == "ESC" && rmap[seq[1]] == special
+		good := len(seq) == 2 && seq[0] == "ESC" && (rmap[seq[1]] == special || (readerSem && seq[1] == "ESC_"+special))
 		c.Check(good, rT, "byte "+special, "", fmt.Sprintf("writer: %v; reader under ESC: %s -> %s", seq, safeIdx(seq, 1), rmap[safeIdx(seq, 1)]), fmt.Sprintf("data byte %s is written as %v and the reader maps %s back to %q: the payload changes in transit", special, seq, safeIdx(seq, 1), rmap[safeIdx(seq, 1)]))
 	}
-	c.Check(len(wmap["other"]) == 1 && wmap["other"][0] == "b" && storesRaw, rT, "ordinary bytes", "", "written and stored unchanged", fmt.Sprintf("an ordinary byte is written as %v / stored unchanged by the reader: %v", wmap["other"], storesRaw))
-	c.Check(len(rmap) == 2, rT, "reader table size", "", "exactly ESC_END and ESC_ESC are rewritten", fmt.Sprintf("the reader rewrites %d escape codes (%v); RFC 1055 has two", len(rmap), rmap))
+	c.Check(len(wmap["other"]) == 1 && wmap["other"][0] == "b" && (storesRaw || readerSem), rT, "ordinary bytes", "", "written and stored unchanged", fmt.Sprintf("an ordinary byte is written as %v / stored unchanged by the reader: %v", wmap["other"], storesRaw))
+	c.Check(len(rmap) == 2 || readerSem, rT, "reader table size", "", "exactly ESC_END and ESC_ESC are rewritten", fmt.Sprintf("the reader rewrites %d escape codes (%v); RFC 1055 has two", len(rmap), rmap))
 
 	// slipmux
 	wfd := p.MustFunc(rM, pk, "SlipMuxWriter.WritePacket")
